@@ -174,6 +174,41 @@ Theorem C02_hide_casketfile_root_is_slash :
 Proof. exact hide_casketfile_root_slash. Qed.
 Print Assumptions C02_hide_casketfile_root_is_slash.
 
+(* hideCasketfile's test is a STRING-prefix test on the absolute paths, nothing else *)
+Theorem C02_hide_casketfile_iff_string_prefix :
+  forall root origin h,
+  hide_casketfile root origin = Some h <->
+  origin <> [] /\ has_prefix origin root = true /\ h = skipn (List.length root) origin.
+Proof. exact hide_casketfile_iff. Qed.
+Print Assumptions C02_hide_casketfile_iff_string_prefix.
+
+(* It never UNDER-hides: whenever the origin lies component-wise inside the root — [reroot], the
+   containment test of the executable origin clause the multi-site cases are judged by, which knows
+   nothing of string prefixes — for a tree at ANY place [base], a root at ANY cleaned place [rootrel]
+   of it ("/" = the tree itself) and ANY origin below, the site gets an entry, and the jail opens
+   that entry at exactly the origin's place inside the root. *)
+Theorem C02_origin_inside_root_is_hidden :
+  forall base rootrel x p,
+  reroot rootrel (jail x) = Some p ->
+  exists h, hide_casketfile (abs_of base rootrel) (base ++ jail x) = Some h /\ jail h = p /\ jail p = p.
+Proof. exact origin_inside_root_is_hidden. Qed.
+Print Assumptions C02_origin_inside_root_is_hidden.
+
+Example C02_origin_inside_root_nonvacuous :
+  map (fun d => reroot (bs d) (jail (bs "www/./Casketfile")))
+      ["/"; "/www"; "/www/pub"; "/ww"; "/other"; "/www/Casketfile"]
+  = [Some (bs "/www/Casketfile"); Some (bs "/Casketfile"); None; None; None; Some [SLASH]].
+Proof. vm_compute. reflexivity. Qed.
+
+(* The converse is FALSE of the code: an entry is also made for a root that merely is a string
+   prefix of the origin's path (root /srv/ww, Casketfile in /srv/www): the entry "w/Casketfile" then
+   hides an unrelated file INSIDE the root (the jail keeps it there: C02_clean_rooted_jail) — an
+   over-hiding, never a disclosure. *)
+Theorem C02_hide_casketfile_only_inside_refuted :
+  exists root origin h, hide_casketfile root origin = Some h /\ reroot root origin = None.
+Proof. exists (bs "/srv/ww"), (bs "/srv/www/Casketfile"), (bs "w/Casketfile"). vm_compute. split; reflexivity. Qed.
+Print Assumptions C02_hide_casketfile_only_inside_refuted.
+
 (* ... hence, for EVERY list of site configs, EVERY position in it whose root contains the origin
    Casketfile, EVERY spelling of EVERY request path and EVERY site path prefix: no body —
    identity-encoded or a precompressed sibling — is the Casketfile (compared as os.SameFile does:
